@@ -15,11 +15,20 @@ struct SliceSrc {
     end: usize,
     sizes: Vec<usize>,
     idx: usize,
+    term: u8,
+    /// a transient error (EAGAIN on a non-blocking descriptor) is reported once by the next read
+    err_pending: bool,
 }
 
 impl SliceSrc {
     fn refill(&mut self) {
         if self.pos == self.end && self.pos < self.data.len() {
+            // read size 0 = the source has nothing right now: ONE transient error, then reading goes on.  Only BETWEEN lines
+            // (the unchanged reader drops what it has read of a line when the read fails; that is not this property's subject)
+            if !self.sizes.is_empty() && self.sizes[self.idx % self.sizes.len()] == 0 && (self.pos == 0 || self.data[self.pos - 1] == self.term) {
+                self.err_pending = true;
+                self.idx += 1;
+            }
             let k = if self.sizes.is_empty() {
                 self.data.len() + 1
             } else {
@@ -34,6 +43,10 @@ impl SliceSrc {
 impl Read for SliceSrc {
     fn read(&mut self, buf: &mut [u8]) -> std::io::Result<usize> {
         self.refill();
+        if self.err_pending {
+            self.err_pending = false;
+            return Err(std::io::Error::new(std::io::ErrorKind::WouldBlock, "transient"));
+        }
         let n = std::cmp::min(buf.len(), self.end - self.pos);
         buf[..n].copy_from_slice(&self.data[self.pos..self.pos + n]);
         self.pos += n;
@@ -44,6 +57,10 @@ impl Read for SliceSrc {
 impl BufRead for SliceSrc {
     fn fill_buf(&mut self) -> std::io::Result<&[u8]> {
         self.refill();
+        if self.err_pending {
+            self.err_pending = false;
+            return Err(std::io::Error::new(std::io::ErrorKind::WouldBlock, "transient"));
+        }
         Ok(&self.data[self.pos..self.end])
     }
     fn consume(&mut self, amt: usize) {
@@ -101,6 +118,54 @@ fn parse(case: &str) -> Option<Case> {
     })
 }
 
+/// lvl `rdr`: the real `Reader` / `ReaderControl` (src/reader.rs) with a producer thread: `reads` = trials, items per trial.
+/// Whenever `is_done()` answers true nothing may be left in the hand-over buffer, and every item sent is taken exactly once.
+fn run_rdr(c: Case) -> String {
+    use skim::verif::Reader;
+    let trials = *c.reads.first().unwrap_or(&50);
+    let n = *c.reads.get(1).unwrap_or(&40);
+    let (mut stale, mut lost) = (0usize, 0usize);
+    for _ in 0..trials {
+        let (tx, rx) = crossbeam::channel::unbounded::<Arc<dyn SkimItem>>();
+        let options = SkimOptionsBuilder::default().build().unwrap();
+        let mut reader = Reader::with_options(&options).source(Some(rx));
+        let ctrl = reader.run("");
+        let producer = std::thread::spawn(move || {
+            for i in 0..n {
+                let _ = tx.send(Arc::new(i.to_string()) as Arc<dyn SkimItem>);
+                if i % 7 == 0 {
+                    std::thread::yield_now();
+                }
+            }
+        });
+        let mut got = 0usize;
+        let deadline = std::time::Instant::now() + Duration::from_secs(10);
+        loop {
+            if ctrl.is_done() {
+                let rest = ctrl.take();
+                if !rest.is_empty() {
+                    stale += 1;
+                }
+                got += rest.len();
+                break;
+            }
+            got += ctrl.take().len();
+            if std::time::Instant::now() > deadline {
+                return "error:reader-never-done".into();
+            }
+        }
+        let _ = producer.join();
+        // anything the reader still delivers after having answered "done"
+        std::thread::sleep(Duration::from_micros(200));
+        got += ctrl.take().len();
+        if got != n {
+            lost += 1;
+        }
+        ctrl.kill();
+    }
+    format!("stale={} miscounted={}", stale, lost)
+}
+
 fn run_lib(c: Case) -> String {
     let mut opt = SkimItemReaderOption::default().ansi(c.ansi).line_ending(c.term);
     if let Some(d) = &c.delim {
@@ -113,7 +178,7 @@ fn run_lib(c: Case) -> String {
         opt = opt.nth(n);
     }
     let reader = SkimItemReader::new(opt.build());
-    let src = SliceSrc { data: c.stream, pos: 0, end: 0, sizes: c.reads, idx: 0 };
+    let src = SliceSrc { data: c.stream, pos: 0, end: 0, sizes: c.reads, idx: 0, term: c.term, err_pending: false };
     let rx = reader.of_bufread(src);
     let mut out = vec![];
     let limit = c.close.unwrap_or(usize::MAX);
@@ -267,7 +332,9 @@ pub fn run(case: &str) -> String {
     match parse(case) {
         None => "error:bad-case".into(),
         Some(c) => {
-            if c.lvl == "lib" {
+            if c.lvl == "rdr" {
+                run_rdr(c)
+            } else if c.lvl == "lib" {
                 run_lib(c)
             } else if c.lvl == "cli" {
                 run_cli(c)
